@@ -218,7 +218,7 @@ func ruleC01Head(c *Ctx) {
 		fm := CallsTo(f, "github.com/frostschutz/go-fibmap.Fiemap")
 		if len(fm) == 1 {
 			start := R.V(fm[0].(*ssa.Call).Call.Args[1])
-			if regexp.MustCompile(`^phi\{0 \| phi\{\(\+.*#0\[\*\]\.Length \+.*#0\[\*\]\.Logical\) \| …\}\}$`).MatchString(start) {
+			if regexp.MustCompile(`^phi\{\(\+.*#0\[\*\]\.Length \+.*#0\[\*\]\.Logical\) \| 0 \| …\}$`).MatchString(start) {
 				c.OK(rule, FnName(f)+" | batch cursor = end of the last extent", c.P.InstrPos(fm[0]), "start = extent.Logical + extent.Length", false)
 			} else {
 				c.Bad(rule, FnName(f)+" | batch cursor = end of the last extent", c.P.InstrPos(fm[0]), "next FIEMAP batch starts at "+start+": with more than one batch, blocks are skipped or reported twice (preload then punches live data)", nil)
